@@ -137,11 +137,19 @@ Proof.
   - apply (ninv_same w); [exact Nv|apply apply_update_cc_nodes|apply apply_update_cc_feed].
 Qed.
 
+Lemma apply_create_cc_kn w o out : KInv w -> NInv w -> KInv (apply_create_cc w o out) /\ NInv (apply_create_cc w o out).
+Proof.
+  intros K Nv. destruct (apply_create_cc_frame w o out) as (E1 & E2 & _ & _ & _ & _ & E4 & _). split.
+  - apply (kinv_same w); assumption.
+  - apply (ninv_same w); assumption.
+Qed.
+
 Lemma apply_effects_kn fx : forall w, KInv w -> NInv w -> KInv (apply_effects w fx) /\ NInv (apply_effects w fx).
 Proof.
-  induction fx as [|e fx IH]; intros w K Nv; [split; assumption|]. destruct e as [nd cs po|? ?|? ?|o' out|? ?]; cbn [apply_effects]; try (apply IH; assumption).
+  induction fx as [|e fx IH]; intros w K Nv; [split; assumption|]. destruct e as [nd cs po|? ?|? ?|o' out|o' out]; cbn [apply_effects]; try (apply IH; assumption).
   - destruct (apply_patch_kn w nd cs po K Nv) as [A B]. apply IH; assumption.
   - destruct (apply_update_cc_kn w o' out K Nv) as [A B]. apply IH; assumption.
+  - destruct (apply_create_cc_kn w o' out K Nv) as [A B]. apply IH; assumption.
 Qed.
 
 Definition setnf (w : world) (f : list nevent) : world := set_caches w (w_ncache w) (w_ccache w) f (w_cfeed w).
@@ -388,7 +396,7 @@ Section Hist4.
     - (* Crash *) apply kinv_crashed.
     - (* Construct *)
       destruct (w_ctl w); [exact K|].
-      destruct (construct po lab (w_ccs w) outs svc1 svc2 (map node_view (w_nodes w))) as [[m fx] pan]. cbn [fst].
+      destruct (construct po lab (with_default dp (w_ccs w)) outs svc1 svc2 (map node_view (w_nodes w))) as [[m fx] pan]. cbn [fst].
       apply apply_effects_kn.
       + constructor; cbn; [intros y [[]|[[]|[]]]|exact Logic.I|apply NoDup_nil].
       + constructor; cbn; [exact (ni_names w Nv)|intros x []].
